@@ -70,6 +70,7 @@ class Backend:
         self.by_path: dict[str, str] = {}
         self.path_of: dict[str, str] = {}
         self.after_exec_result = 0
+        self.auto_changes = 0  # status changes made by the service itself (timers fired, external completions)
         self._mk_execution_op()
         # hooks
         self.on_update = None
@@ -277,6 +278,7 @@ class Backend:
                 op["Status"] = "READY"
                 self._touch(op)
                 n += 1
+        self.auto_changes += n
         return n
 
     def next_timer(self) -> float | None:
@@ -299,6 +301,7 @@ class Backend:
         if error is not None:
             op["Error"] = error
         self._touch(op)
+        self.auto_changes += 1
         return True
 
     def outstanding_external(self) -> list[dict]:
